@@ -457,6 +457,29 @@ def rule_k7(repo, col):
                % (bad[0].value[:60] if bad else ""), construct="_break_cycles: evidence value substituted regardless of is_evidence", function="_break_cycles")
 
 
+def rule_k8(repo, col):
+    """translation memos of the formula transformations (copy_node / copy_node_from / _break_cycles / clarks_completion ...): a table is written under the same key form it is read
+    under (an entry stored under abs(index) is handed out for index AND -index)"""
+    from .. import memo
+
+    if not memo.key_selftest():
+        raise AnalysisError("memo key-agreement rule does not fire on its positive example")
+    n_f = 0
+    n_bad = 0
+    for f in repo.all_functions():
+        if f.module.name not in ("problog.formula", "problog.cycles", "problog.cnf_formula", "problog.ddnnf_formula", "problog.dd_formula", "problog.core"):
+            continue
+        n_f += 1
+        for st, tab, rk, wk in memo.key_disagreements(f.node):
+            n_bad += 1
+            col.fail("K8", f.module, st, "%s looks its memo `%s` up under %s but stores under %s: the translation computed for one literal is then handed out for another (with abs(): the "
+                     "negation of a node gets the node's own translation, so q and \\+q become the same circuit)" % (f.qualname, tab, rk, wk),
+                     construct="%s: memo %s read under %s, written under %s" % (f.qualname, tab, rk, wk), function=f.qualname)
+    col.ok("K8", repo.modules["problog.formula"], repo.modules["problog.formula"].tree, "transformation modules scanned for memo tables read and written under different keys: %d functions, "
+           "%d disagreements; positive example of the rule matched" % (n_f, n_bad), construct="transformation modules: memo key agreement scan", function="<module>")
+    col.floor("K8.functions_scanned", n_f, 150)
+
+
 def run(repo, col):
     col.rule("K1", "clause templates of Clark's completion")
     col.rule("K2", "weights, atoms, constraints and names are carried over")
@@ -471,3 +494,5 @@ def run(repo, col):
     rule_k6(repo, col)
     col.rule("K7", "evidence values are substituted into query translations only")
     rule_k7(repo, col)
+    col.rule("K8", "translation memos are written under the key they are read under")
+    rule_k8(repo, col)
